@@ -482,6 +482,43 @@ def run_unit(unit):
         r2 = np.concatenate([(xs[i] - mx) ** 2 + (ysl[i] - my) ** 2 for i in range(3)])
         same(part, 'rms-spot-size-operand', 'RayOperand.rms_spot_size', cond0, dict(det0, wavelength='all'),
              [RayOperand.rms_spot_size(o, len(rows) - 1, 0.0, 1.0, 3, 'all')], [math.sqrt(float(np.mean(r2)))])
+        # the same operand on its other documented pupil samplings, single wavelength and 'all'
+        for dname, nr_ in (('uniform', 6), ('cross', 5), ('ring', 8), ('line_y', 7)):
+            x, y, _ = spot(o, 0.0, 0.7, 0.4861, nr_, dname)
+            same(part, 'rms-spot-size-operand', 'RayOperand.rms_spot_size', cond0, dict(det0, distribution=dname),
+                 [RayOperand.rms_spot_size(o, len(rows) - 1, 0.0, 0.7, nr_, 0.4861, dname)],
+                 [math.sqrt(float(np.mean((x - x.mean()) ** 2 + (y - y.mean()) ** 2)))])
+            xs, ysl = [], []
+            for w in lens_w:
+                a, b, _ = spot(o, 0.0, 0.7, w, nr_, dname)
+                xs.append(a)
+                ysl.append(b)
+            mx, my = xs[1].mean(), ysl[1].mean()
+            r2 = np.concatenate([(xs[i] - mx) ** 2 + (ysl[i] - my) ** 2 for i in range(3)])
+            same(part, 'rms-spot-size-operand', 'RayOperand.rms_spot_size', cond0, dict(det0, wavelength='all', distribution=dname),
+                 [RayOperand.rms_spot_size(o, len(rows) - 1, 0.0, 0.7, nr_, 'all', dname)], [math.sqrt(float(np.mean(r2)))])
+            part.transitions += 2
+        # ---------------- distortion on a lens whose largest field is a negative one (angular fields) ---------------------------------
+        if ft == 'angle' and not has_mirror:
+            sp_n = dict(sp, fields=[[-mf, 0.0, 0.0], [0.0, 0.0, 0.0], [0.4 * mf, 0.0, 0.0]])
+            o_n = LZ.build(sp_n)
+            part.states += 1
+            npd = 6
+            for dtype in ('f-tan', 'f-theta'):
+                cond = f'{cond0},type={dtype},largest-field=negative'
+                dd = guarded(part, 'distortion', 'Distortion', cond, det0, lambda: AN.Distortion(o_n, wavelengths=[0.5876], num_points=npd, distortion_type=dtype))
+                part.transitions += 1
+                part.evals += 1
+                if dd is None:
+                    continue
+                Hs = np.linspace(1e-10, 1, npd)
+                yr = np.array([float(o_n.trace_generic(0.0, float(H), 0.0, 0.0, 0.5876).y[0]) for H in Hs])
+                th = math.radians(mf)      # the ray generator maps Hy to Hy x (largest field in absolute value)
+                yp = y_par_full * (np.tan(Hs * th) / math.tan(th) if dtype == 'f-tan' else Hs * th / math.tan(th))
+                with np.errstate(all='ignore'):
+                    ref = 100 * (yr - yp) / yp
+                got = np.asarray(dd.data[0], float)
+                same(part, 'distortion-vs-paraxial-image-height', 'Distortion', cond, det0, got[1:], ref[1:], tol=0.02)
     part.sample(dict(word=unit['word'], stop=unit['stop']))
     return part
 
